@@ -54,6 +54,7 @@ def main(argv):
     except ModuleNotFoundError:
         print(f"ANALYSIS-ERROR property={pid}: no check implemented")
         return 2
+    mod.check.level = getattr(mod, "level", "other")
     return run_check(pid, tier, mod.check, only)
 
 
